@@ -1,4 +1,5 @@
 import ThermoVerif.Lemmas.Unifac
+import ThermoVerif.Lemmas.UnifacGD
 import Mathlib.Analysis.Calculus.FDeriv.Mul
 import Mathlib.Analysis.Calculus.FDeriv.Add
 import Mathlib.Analysis.Calculus.FDeriv.Pi
@@ -18,9 +19,11 @@ Group tables are parameters.  The theorems that need the structure of the tables
 (non-negative counts and Q, positive q_i and r_i); the driver checks on every real object that
 its arrays are those tables and meet `WF` (`wf=1`).
 
-NOT decided by proof: that the concrete UNIFAC / modified-UNIFAC expressions are the gradient
-of a degree-one homogeneous excess function (so Gibbs–Duhem for the concrete models rests on
-`gibbs_duhem_euler` + the finite-difference oracle on the real code, see `gibbs_duhem_concrete_statement`).
+Gibbs–Duhem for the concrete UNIFAC / modified-UNIFAC expressions IS decided by proof:
+`gibbs_duhem_concrete` discharges `gibbs_duhem_concrete_statement` (the model's `ln γ` is the gradient of the
+degree-one homogeneous, differentiable excess function `Gex`, for arbitrary group tables), and
+`gibbs_duhem_unifac_all` gives `Σ n_i d(ln γ_i)[v] = 0` on the positive orthant with no hypothesis left
+(Lemmas/UnifacGD.lean).  The finite-difference probe on the real code remains as a search oracle.
 -/
 namespace ThermoVerif.Props.C16
 open ThermoVerif.Unifac Transc
@@ -261,10 +264,10 @@ theorem gibbs_duhem_euler {n : ℕ} (S : Set (Fin n → ℝ)) (hS : IsOpen S)
     ContinuousLinearMap.proj_apply, smul_eq_mul, Finset.sum_add_distrib] at this
   linarith
 
-/-- What is NOT proved: that the model's `ln γ_i` (as functions of mole numbers, i.e. `gammaSubS`
+/-- The statement that the model's `ln γ_i` (as functions of mole numbers, i.e. `gammaSubS`
 composed with normalisation) are the partial derivatives of one degree-one homogeneous function.
-With it, `gibbs_duhem_euler` would give Gibbs–Duhem for the concrete models.  The statement is
-kept here; on the real code the relation is watched by the finite-difference oracle only. -/
+Proved below (`gibbs_duhem_concrete`); with `gibbs_duhem_euler` it gives Gibbs–Duhem for the
+concrete models (`gibbs_duhem_unifac`, `gibbs_duhem_unifac_all`). -/
 def gibbs_duhem_concrete_statement : Prop :=
   ∀ (kind : Kind) (nC nG : Nat) (index : Nat → Nat) (cg : Nat → Nat → ℝ) (Qs Rs : Nat → ℝ)
     (_ : WF nC nG cg Qs Rs) (inter : Nat → Nat → Nat → ℝ) (T : ℝ),
@@ -347,5 +350,93 @@ example (c : Fin 3 → ℝ) (x v : Fin 3 → ℝ) : ∑ i, x i * (0 : (Fin 3 →
     (fun y _ => (∑ i, c i • ContinuousLinearMap.proj (R := ℝ) (φ := fun _ : Fin 3 => ℝ) i).hasFDerivAt)
     (fun y _ t _ => by simp [_root_.sum_apply, Finset.mul_sum])
     x trivial (fun _ => 0) (fun i => hasFDerivAt_const (c i) x) v
+
+/-! ### Gibbs–Duhem for the concrete models (the former `…_statement`, now discharged) -/
+
+/-- **Gibbs–Duhem for the concrete models, gradient form.**  For original and modified UNIFAC on the
+tables `__new__` builds (any interaction parameters, any `T`), the function `Gex` (combinatorial part
+`Σ n_i c_i + N (ln N − ln Σ n_j v_j) + 5 Σ n_j q_j (ln Σ n_j r_j − ln Σ n_j q_j)`, residual part
+`Σ_k Q_k W_k (ln T − ln S_k) − Σ_i n_i Σ_k ν_k^(i) ln Γ_k^(i)`) is positively homogeneous of degree one and
+differentiable on the open positive orthant, and its partial derivatives are exactly the model's
+`ln γ_i` evaluated at `x = n / Σ n`. -/
+theorem gibbs_duhem_concrete : gibbs_duhem_concrete_statement := by
+  intro kind nC nG index cg Qs Rs wf inter T
+  rcases Nat.eq_zero_or_pos nC with h0 | hn
+  · subst h0
+    refine ⟨fun _ => 0, fun _ _ _ _ => by simp, fun y _ => ?_⟩
+    simpa using (hasFDerivAt_const (0:ℝ) y)
+  · refine ⟨Gex kind nC nG index cg Qs Rs inter T, fun y hy t ht => Gex_hom wf hn y hy t ht, fun y hy => ?_⟩
+    have h := hasFDerivAt_Gex (kind := kind) (index := index) (inter := inter) (T := T) wf hn y hy
+    have e : lin (gradGex kind nC nG index cg Qs Rs inter T y)
+        = ∑ i : Fin nC, Real.log (gammaSubS kind (build nC nG index cg Qs Rs) inter T
+            (fun a => if h : a < nC then y ⟨a, h⟩ / ∑ b, y b else 0) i)
+            • ContinuousLinearMap.proj (R := ℝ) (φ := fun _ : Fin nC => ℝ) i := by
+      unfold lin
+      apply Finset.sum_congr rfl
+      intro i _
+      rw [gradGex_eq_log_gamma wf hn y hy i]
+      rfl
+    rw [← e]; exact h
+
+/-- **Gibbs–Duhem for the concrete models.**  At every point `n` of the positive orthant where the model's
+`ln γ_i(n/Σn)` are differentiable, and along every direction `v`: `Σ n_i d(ln γ_i)[v] = 0`
+(`gibbs_duhem_euler` applied to `Gex`). -/
+theorem gibbs_duhem_unifac (kind : Kind) {nC nG : Nat} (index : Nat → Nat) {cg : Nat → Nat → ℝ} {Qs Rs : Nat → ℝ}
+    (wf : WF nC nG cg Qs Rs) (hn : 0 < nC) (inter : Nat → Nat → Nat → ℝ) (T : ℝ)
+    (x : Fin nC → ℝ) (hx : ∀ i, 0 < x i)
+    (dlnγ : Fin nC → ((Fin nC → ℝ) →L[ℝ] ℝ))
+    (hγ : ∀ i : Fin nC, HasFDerivAt
+      (fun y => Real.log (gammaSubS kind (build nC nG index cg Qs Rs) inter T (fracs y) i)) (dlnγ i) x)
+    (v : Fin nC → ℝ) : ∑ i, x i * dlnγ i v = 0 := by
+  have hopen : IsOpen {y : Fin nC → ℝ | ∀ i, 0 < y i} := by
+    have : {y : Fin nC → ℝ | ∀ i, 0 < y i} = ⋂ i, {y | 0 < y i} := by ext y; simp
+    rw [this]
+    exact isOpen_iInter_of_finite (fun i => isOpen_lt continuous_const (continuous_apply i))
+  refine gibbs_duhem_euler {y : Fin nC → ℝ | ∀ i, 0 < y i} hopen (Gex kind nC nG index cg Qs Rs inter T)
+    (fun i y => Real.log (gammaSubS kind (build nC nG index cg Qs Rs) inter T (fracs y) i))
+    (fun y hy => ?_) (fun y hy t ht => Gex_hom wf hn y hy t ht) x hx dlnγ hγ v
+  have h := hasFDerivAt_Gex (kind := kind) (index := index) (inter := inter) (T := T) wf hn y hy
+  have e : lin (gradGex kind nC nG index cg Qs Rs inter T y)
+      = ∑ i : Fin nC, Real.log (gammaSubS kind (build nC nG index cg Qs Rs) inter T (fracs y) i)
+          • ContinuousLinearMap.proj (R := ℝ) (φ := fun _ : Fin nC => ℝ) i := by
+    unfold lin
+    apply Finset.sum_congr rfl
+    intro i _
+    rw [gradGex_eq_log_gamma wf hn y hy i]
+  rw [← e]; exact h
+
+/-- **Integral (Euler) form:** `Gex(n) = Σ n_i ln γ_i(n/Σn)` on the positive orthant — the excess function is
+recovered from the model's own coefficients. -/
+theorem excess_eq_sum_n_ln_gamma (kind : Kind) {nC nG : Nat} (index : Nat → Nat) {cg : Nat → Nat → ℝ} {Qs Rs : Nat → ℝ}
+    (wf : WF nC nG cg Qs Rs) (hn : 0 < nC) (inter : Nat → Nat → Nat → ℝ) (T : ℝ)
+    (y : Fin nC → ℝ) (hy : ∀ i, 0 < y i) :
+    Gex kind nC nG index cg Qs Rs inter T y
+      = ∑ i : Fin nC, y i * Real.log (gammaSubS kind (build nC nG index cg Qs Rs) inter T (fracs y) i) := by
+  have h := hasFDerivAt_Gex (kind := kind) (index := index) (inter := inter) (T := T) wf hn y hy
+  have := euler_homogeneous (Gex kind nC nG index cg Qs Rs inter T) (gradGex kind nC nG index cg Qs Rs inter T y) y h
+    (fun t ht => Gex_hom wf hn y hy t ht)
+  rw [this]
+  apply Finset.sum_congr rfl; intro i _
+  rw [gradGex_eq_log_gamma wf hn y hy i]
+
+/-- **Gibbs–Duhem for the concrete models, no hypothesis left.**  The model's `ln γ_i(n/Σn)` are
+differentiable on the positive orthant, and `Σ n_i d(ln γ_i)[v] = 0` there for every direction `v`, for
+original and modified UNIFAC, any group tables meeting `WF`, any interaction parameters, any `T`. -/
+theorem gibbs_duhem_unifac_all (kind : Kind) {nC nG : Nat} (index : Nat → Nat) {cg : Nat → Nat → ℝ} {Qs Rs : Nat → ℝ}
+    (wf : WF nC nG cg Qs Rs) (hn : 0 < nC) (inter : Nat → Nat → Nat → ℝ) (T : ℝ)
+    (x : Fin nC → ℝ) (hx : ∀ i, 0 < x i) (v : Fin nC → ℝ) :
+    (∀ i : Fin nC, DifferentiableAt ℝ
+      (fun y => Real.log (gammaSubS kind (build nC nG index cg Qs Rs) inter T (fracs y) i)) x)
+    ∧ ∑ i : Fin nC, x i * fderiv ℝ
+        (fun y => Real.log (gammaSubS kind (build nC nG index cg Qs Rs) inter T (fracs y) i)) x v = 0 := by
+  have hd := fun i : Fin nC => differentiableAt_log_gamma (kind := kind) (index := index) (inter := inter) (T := T) wf hn x hx i
+  exact ⟨hd, gibbs_duhem_unifac kind index wf hn inter T x hx _ (fun i => (hd i).hasFDerivAt) v⟩
+
+/-- non-vacuity: the example tables of `wfEx`, an interior point. -/
+example (inter : Nat → Nat → Nat → ℝ) (T : ℝ) (v : Fin 2 → ℝ) :
+    ∑ i : Fin 2, (![1/4, 3/4] : Fin 2 → ℝ) i * fderiv ℝ
+        (fun y => Real.log (gammaSubS .modified (build 2 2 id cgEx QsEx RsEx) inter T (fracs y) i)) ![1/4, 3/4] v = 0 :=
+  (gibbs_duhem_unifac_all .modified id wfEx (by norm_num) inter T ![1/4, 3/4]
+    (by intro i; fin_cases i <;> norm_num) v).2
 
 end ThermoVerif.Props.C16
